@@ -143,11 +143,11 @@ class HandlerEval:
 
     # ---- function dispatch -----------------------------------------------------------------------------------
     def _function_table(self) -> Dict[str, Tuple[int, int]]:
-        gm = self.repo.modules.get("odata_query.grammar")
-        if gm is None or "ODATA_FUNCTIONS" not in gm.assigns:
+        fa = self.repo.assign("odata_query.grammar", "ODATA_FUNCTIONS")
+        if fa is None:
             raise AnalysisError("ODATA_FUNCTIONS not found")
         try:
-            raw = self.repo.fold(gm, gm.assigns["ODATA_FUNCTIONS"][0])
+            raw = self.repo.fold(fa[0], fa[1])
         except NotConst as e:
             raise AnalysisError(f"ODATA_FUNCTIONS is not constant: {e}")
         out = {}
